@@ -612,6 +612,132 @@ def equivalence_family(rng, n_random):
     return out
 
 
+# ================================================================================================
+# loop.* attributes outside the Lang model (previtem, nextitem, depth, depth0, cycle, changed) and the
+# seven modelled ones, read in every order: expected output from a small oracle on the iterated sequence
+# ================================================================================================
+LOOP_ATTRS = ["index", "index0", "revindex", "revindex0", "first", "last", "length", "previtem", "nextitem",
+              "depth", "depth0", "cycle", "changed"]
+
+
+def _attr_src(a, var="loop", item="x", sub=""):
+    """template expression whose rendering is a plain integer / string (no dependence on how booleans,
+    undefined or containers are printed); [sub] is the attribute taken of prev/next items (tree nodes)"""
+    L = var + "." + a
+    if a in ("first", "last"):
+        return "(1 if %s else 0)" % L
+    if a in ("previtem", "nextitem"):
+        return '(%s%s if %s is defined else "~")' % (L, sub, L)
+    if a == "cycle":
+        return var + '.cycle("p", "q", "r")'
+    if a == "changed":
+        return "(1 if %s.changed(%s%s) else 0)" % (var, item, sub)
+    return L
+
+
+def _attr_val(a, i, items, depth0):
+    """the value the documentation gives the attribute at position i of the iterated sequence [items]"""
+    n = len(items)
+    if a == "index": return str(i + 1)
+    if a == "index0": return str(i)
+    if a == "revindex": return str(n - i)
+    if a == "revindex0": return str(n - i - 1)
+    if a == "first": return "1" if i == 0 else "0"
+    if a == "last": return "1" if i == n - 1 else "0"
+    if a == "length": return str(n)
+    if a == "previtem": return str(items[i - 1]) if i > 0 else "~"
+    if a == "nextitem": return str(items[i + 1]) if i + 1 < n else "~"
+    if a == "depth": return str(depth0 + 1)
+    if a == "depth0": return str(depth0)
+    if a == "cycle": return "pqr"[i % 3]
+    if a == "changed": return "1" if i == 0 or items[i] != items[i - 1] else "0"
+    raise ValueError(a)
+
+
+def loop_attr_family(rng, n_random):
+    """(template, ctx, expected output, kind).  reads: list of (attribute, k): the attribute is read in
+    every iteration (k = 0) or only in iteration k (1-based) - so that the FIRST read of one attribute
+    comes before / after / iterations away from the first read of another one."""
+    out = []
+    xs = [10, 20, 20, 30]
+    ctx = {"xs": xs, "ws": ["b", "a", "c"], "s": "abca", "d": {"a": 1, "b": 2, "c": 3}, "e": [], "one": [7],
+           "tree": [{"v": 1, "c": [{"v": 2, "c": []}, {"v": 3, "c": [{"v": 4, "c": []}]}]}, {"v": 5, "c": []}, {"v": 5, "c": []}]}
+    subjects = [          # (source of the iterated expression, optional filter source, the sequence actually iterated)
+        ("xs", None, xs), ("[1, 2, 3]", None, [1, 2, 3]), ("ws", None, ["b", "a", "c"]), ("s", None, list("abca")),
+        ('"xyz"', None, list("xyz")), ("d", None, ["a", "b", "c"]), ('{"j": 1, "k": 2}', None, ["j", "k"]),
+        ("range(4)", None, [0, 1, 2, 3]), ("range(2, 11, 3)", None, [2, 5, 8]), ("xs|reverse", None, xs[::-1]),
+        ("ws|sort", None, ["a", "b", "c"]), ("xs|unique", None, [10, 20, 30]), ("xs[1:]", None, xs[1:]),
+        ('xs|map("abs")', None, xs), ("range(5)|list", None, [0, 1, 2, 3, 4]), ("one", None, [7]), ("e", None, []),
+        ("xs", "x != 10", [20, 20, 30]), ("range(6)", "x is odd", [1, 3, 5]), ("s", 'x != "b"', list("aca")),
+        ("d", 'x != "a"', ["b", "c"]), ("xs", "x > 100", []),
+    ]
+
+    def reads_src(reads, var="loop", item="x", sub=""):
+        src = ""
+        for a, k in reads:
+            e = ":{{ " + _attr_src(a, var, item, sub) + " }}"
+            src += e if k == 0 else "{% if " + var + ".index0 == " + str(k - 1) + " %}" + e + "{% endif %}"
+        return src
+
+    def reads_val(reads, i, items, depth0):
+        # changed(v): true iff the previous call in this loop was given another value, or there was none -
+        # read in one iteration only it is the first call
+        return "".join(":" + ("1" if a == "changed" and k != 0 else _attr_val(a, i, items, depth0)) for a, k in reads if k == 0 or k - 1 == i)
+
+    def flat(reads, subj, flt, items):
+        src = "{% for x in " + subj + ((" if " + flt) if flt else "") + " %}{{ x }}" + reads_src(reads) + ";{% else %}E{% endfor %}"
+        exp = "".join(str(x) + reads_val(reads, i, items, 0) + ";" for i, x in enumerate(items)) or "E"
+        return src, exp
+
+    def nested(reads, subj, flt, items):
+        # the same loop as the inner loop of another one; the outer loop's attributes read from inside through a with
+        oreads = [(a if a != "changed" else "depth", 0) for a, _ in reads[:2]]      # (changed would be called several times per outer iteration)
+        src = ("{% for y in ws %}{% with o = loop %}<{% for x in " + subj + ((" if " + flt) if flt else "") + " %}{{ x }}" + reads_src(reads)
+               + "|" + reads_src(oreads, "o", "y") + ";{% endfor %}>{% endwith %}" + reads_src(oreads, "loop", "y") + "{% endfor %}")
+        exp = ""
+        for j in range(3):
+            exp += "<" + "".join(str(x) + reads_val(reads, i, items, 0) + "|" + reads_val(oreads, j, ["b", "a", "c"], 0) + ";" for i, x in enumerate(items)) + ">"
+            exp += reads_val(oreads, j, ["b", "a", "c"], 0)
+        return src, exp
+
+    def recursive(reads):
+        src = "{% for n in tree recursive %}{{ n.v }}" + reads_src(reads, "loop", "n", ".v") + "({{ loop(n.c) }}){% endfor %}"
+        def rec(nodes, depth0):
+            vals = [n["v"] for n in nodes]
+            return "".join(str(n["v"]) + reads_val(reads, i, vals, depth0) + "(" + rec(n["c"], depth0 + 1) + ")" for i, n in enumerate(nodes))
+        return src, rec(ctx["tree"], 0)
+
+    orders = []
+    A = LOOP_ATTRS
+    for a in A:                                   # every ordered pair, the first one read in every iteration / only in iteration 1, 2, 3
+        for b in A:
+            if a != b:
+                for k in (0, 1, 2, 3):
+                    orders.append([(a, k), (b, 0)])
+    core = ["nextitem", "previtem", "length", "last", "revindex", "revindex0", "index", "first"]
+    for a in core:                                # every ordered triple of the attributes that share state
+        for b in core:
+            for c in core:
+                if len({a, b, c}) == 3:
+                    orders.append([(a, 0), (b, 0), (c, 0)])
+    for _ in range(n_random):                     # random full permutations with random first-read iterations
+        perm = list(A)
+        for i in range(len(perm) - 1, 0, -1):
+            j = rng.below(i + 1); perm[i], perm[j] = perm[j], perm[i]
+        orders.append([(a, rng.choice([0, 0, 0, 1, 2, 3])) for a in perm[:3 + rng.below(len(perm) - 2)]])
+    for idx, reads in enumerate(orders):
+        subj, flt, items = subjects[idx % len(subjects)]
+        shape = idx % 7
+        if shape == 5:
+            src, exp = nested(reads, subj, flt, items); kind = "nested"
+        elif shape == 6:
+            src, exp = recursive(reads); kind = "recursive"
+        else:
+            src, exp = flat(reads, subj, flt, items); kind = "filtered" if flt else "flat"
+        out.append((src, ctx, exp, kind))
+    return out
+
+
 def main():
     chk = Check("C03", "proof")
     chk.cov["trusted_base"] = TRUSTED_COMMON + ["Print Assumptions of the C03 theorems: see coverage.theorems",
@@ -633,11 +759,14 @@ def main():
         chk.finish()
     progs = []      # (body, ctx, mode)
     equiv = []      # (index of the right program in progs, kind, left source)
+    oracle_cases = []   # (template, ctx, expected output, kind): loop attributes against the oracle of this file
     if chk.replay:
         rp = json.load(open(chk.replay))["replay"]
         progs.append((eval(rp["ast"]), rp["context"], rp.get("mode", "lenient")))
         if "left_template" in rp:
             equiv.append((0, rp.get("kind", "equivalence"), rp["left_template"]))
+        if "expected_output" in rp:
+            oracle_cases.append((rp["oracle_template"], rp["context"], rp["expected_output"], rp.get("kind", "flat")))
         n_stmt = 1
     else:
         n = 30000 if chk.thorough else 2500
@@ -664,6 +793,7 @@ def main():
                 progs.append((body, ctx, md))
         chk.cov["map_family_cases"] = 4 * len(mf)
         # constructs outside the Lang syntax, through their element-wise equivalents inside it
+        oracle_cases = loop_attr_family(chk.rng, 3000 if chk.thorough else 300)
         for kind, left, right, ctx in equivalence_family(chk.rng, 0):
             equiv.append((len(progs), kind, left))
             progs.append((right, ctx, "lenient"))
@@ -714,6 +844,20 @@ def main():
                         nontriv.add(left + json.dumps(progs[i][1], sort_keys=True))
                 if e != model[i]:
                     eq_bad.append((i, kind, left, rel, e))
+    # ---- loop attributes in every read order: engine vs the oracle on the iterated sequence ----
+    or_bad = []
+    or_hist = collections.Counter()
+    if oracle_cases:
+        oreqs = [{"templates": {"main": src}, "main": "main", "ctx": ctx, "undefined": "lenient", "ops": ["render"]} for src, ctx, _, _ in oracle_cases]
+        for rel in (False, True):
+            for (src, ctx, exp, kind), r in zip(oracle_cases, run_prog(oreqs, release=rel)):
+                rr = r.get("render", r)
+                if not rel:
+                    or_hist[kind] += 1
+                    if rr.get("ok"):
+                        nontriv.add(src)
+                if rr.get("ok") != exp:
+                    or_bad.append((src, ctx, exp, kind, rel, rr))
     # ---- L2: model VM on the model stream vs interpreter (vs engine: `bad` above) ----
     vm_bad = [i for i in range(len(progs)) if mvm[i] != model[i]]
     # ---- L2: model stream vs real stream ----
@@ -786,6 +930,8 @@ def main():
     chk.cov["samples"] = [reqs[i]["templates"]["main"] for i in (0, n_stmt // 2, max(0, n_stmt - 1), len(reqs) - 1)]
     chk.cov["distribution"] = {"outcomes": dict(hist), "constructs": dict(kinds), "sizes": dict(sizes), "real_opcodes": dict(opc)}
     chk.cov["engine_vs_interpreter_disagreements"] = len(bad)
+    chk.cov["loop_attr_family"] = {"cases": dict(or_hist), "disagreements": len(or_bad),
+                                   "rule": "engine output = oracle of tools/props/C03.py (_attr_val) on the iterated sequence: 13 loop attributes (incl. previtem, nextitem, depth, depth0, cycle, changed) in every ordered pair (first read in every iteration / only in iteration 1, 2, 3), every ordered triple of the 8 attributes sharing iterator state, random permutations; lists, strings, maps, range, lazy filter results, filtered, empty, nested (outer loop read from inside), recursive loops"}
     chk.cov["equivalence_family"] = {"cases": dict(eq_hist), "disagreements": len(eq_bad),
                                      "rule": "engine(left template) = reference interpreter(element-wise equivalent inside the Lang syntax); tuple right-hand sides / three or nested targets of unpacking set / with are tied to the reference semantics by this equivalence only (two-name targets and loops over strings are also compared directly)"}
     chk.cov["kernel_crosscheck"] = {"cases": len(small) + len(small2), "agree": bool(kern_ok and kern2_ok)}
@@ -818,6 +964,10 @@ def main():
         chk.violation("engine output differs from the reference semantics",
                       {"template": src, "context": ctx, "mode": mode, "profile": "release" if rel else "debug", "engine": r.get("render", r),
                        "reference": ("".join(chr(c) for c in mm[2:]) if mm[:1] == [0] else mm), "ast": repr(small_body)})
+    for src, ctx, exp, kind, rel, rr in sorted(or_bad, key=lambda t: len(t[0]))[:3]:
+        chk.violation("loop attributes do not describe the sequence actually iterated (value depends on which attributes were read before)",
+                      {"template": src, "oracle_template": src, "context": ctx, "kind": kind, "profile": "release" if rel else "debug",
+                       "engine": rr.get("ok", rr), "expected_output": exp, "ast": repr([("raw", "x")]), "mode": "lenient"})
     seen_eq = set()
     for i, kind, left, rel, e in eq_bad:
         if kind in seen_eq:
